@@ -3,7 +3,7 @@
  *   ord:2,0,1  push:3  pop  rev  clear  top:3 top:-  bot:3 bot:-          the variable order of the context
  *   new:TEXT  copy:i  fresh:i (new object parsed from the canonical text of i under the order in force)
  *   ext:i  assign:i:j  swap:i:j  ens:i  hash:i  vmove:i
- *   add|sub|mul|gcd|res|addmul:r:a:b   neg|der:r:a   pow:r:a:n   mono:i:TERM
+ *   add|sub|mul|gcd|res|addmul|submul|lcm:r:a:b   neg|der|cont|pp|reductum:r:a   pow|shl|mulc:r:a:n   mono:i:TERM
  *   eq:i:j  cmp:i:j  heq:i:j                                              observations E0/1 C0/1 H0/1
  * Non-external operands that do not match the order are brought in order explicitly (lp_polynomial_ensure_order)
  * before an operation reads them - external ones are left to the library (lp_polynomial_external_clean).
@@ -129,6 +129,35 @@ int main(void) {
               if (r != a && r != b) printf(" R%d", route_check(lp_polynomial_resultant, obj[r], obj[a], obj[b])); else printf(" R1");
             }
           }
+        }
+      }
+      else if (!strcmp(c, "cont") || !strcmp(c, "pp") || !strcmp(c, "reductum")) {
+        /* r := cont(a) / pp(a) / reductum(a); the value is C01's and C04's subject: X when outside the domain */
+        int r = idx(f[1]), a = idx(f[2]);
+        if (r >= 0 && a >= 0) {
+          prep(obj[a]);
+          if (lp_polynomial_is_zero(obj[a]) || (c[0] == 'r' && lp_polynomial_is_constant(obj[a]))) printf(" X");
+          else if (c[0] == 'c') lp_polynomial_cont(obj[r], obj[a]);
+          else if (c[0] == 'p') lp_polynomial_pp(obj[r], obj[a]);
+          else lp_polynomial_reductum(obj[r], obj[a]);
+        }
+      }
+      else if (!strcmp(c, "lcm") || !strcmp(c, "submul")) {
+        int r = idx(f[1]), a = idx(f[2]), b = idx(f[3]);
+        if (r >= 0 && a >= 0 && b >= 0) {
+          prep(obj[a]); prep(obj[b]);
+          if (c[0] == 's') { prep(obj[r]); lp_polynomial_sub_mul(obj[r], obj[a], obj[b]); }
+          else if (lp_polynomial_is_zero(obj[a]) || lp_polynomial_is_zero(obj[b])) printf(" X");
+          else lp_polynomial_lcm(obj[r], obj[a], obj[b]);
+        }
+      }
+      else if (!strcmp(c, "mulc") || !strcmp(c, "shl")) {
+        int r = idx(f[1]), a = idx(f[2]);
+        if (r >= 0 && a >= 0) {
+          prep(obj[a]);
+          if (c[0] == 'm') { lp_integer_t k; lp_integer_construct_from_string(lp_Z, &k, f[3], 10); lp_polynomial_mul_integer(obj[r], obj[a], &k); lp_integer_destruct(&k); }
+          else if (lp_polynomial_is_constant(obj[a])) printf(" X");
+          else lp_polynomial_shl(obj[r], obj[a], (unsigned) atoi(f[3]));
         }
       }
       else if (!strcmp(c, "neg") || !strcmp(c, "der")) {
